@@ -92,9 +92,50 @@ def bit_function(op, n):
     return f
 
 
+def read_result(r):
+    """an implementation output as a finite float, or ('err', reason): nothing the implementation returns may crash the
+    harness (nan, inf, None, complex, arrays, strings ...)"""
+    import math
+
+    import numpy as np
+
+    try:
+        if r is None or isinstance(r, (str, bytes, bool, np.bool_)):
+            return ("err", "unreadable-result-" + type(r).__name__)
+        if isinstance(r, np.ndarray):
+            if r.size != 1:
+                return ("err", "unreadable-result-ndarray")
+            r = r.reshape(()).item()
+        c = complex(r)
+    except Exception:
+        return ("err", "unreadable-result-" + type(r).__name__)
+    if c.imag != 0:  # also true for a nan imaginary part
+        return ("err", "complex-result")
+    if not math.isfinite(c.real):
+        return ("err", "non-finite-result")
+    return float(c.real)
+
+
+def build_operator(case):
+    """the SparsePauliOp of the case: from_list of all terms, or SparsePauliOp.sum of its parts (unsimplified), with
+    complex coefficients of zero imaginary part for the 'complex' family"""
+    from qiskit.quantum_info import SparsePauliOp
+
+    n = case["n"]
+    cx = (lambda c: complex(c, 0.0)) if case.get("op_family") == "complex-coefficients" else (lambda c: c)
+    if case.get("op_parts"):
+        return SparsePauliOp.sum([SparsePauliOp.from_list([(label(m, n), cx(c)) for c, m in part]) for part in case["op_parts"]])
+    return SparsePauliOp.from_list([(label(m, n), cx(c)) for c, m in case["op"]])
+
+
+def conv_alpha(case, alpha):
+    import numpy as np
+
+    return np.float64(alpha) if case.get("alpha_np") else alpha
+
+
 def impl_paths(case, alpha):
     """[operator path, bitstring path]: float or ('err', class)"""
-    from qiskit.quantum_info import SparsePauliOp
     from qiskit.result import ProbDistribution, QuasiDistribution
 
     from queasars.circuit_evaluation.bitstring_evaluation import BitstringEvaluator
@@ -103,15 +144,34 @@ def impl_paths(case, alpha):
     n, shots = case["n"], case["shots"]
     data = {k: c / shots for k, c in case["counts"]}
     mk = ProbDistribution if case.get("dist_type") == "prob" else QuasiDistribution
-    op = SparsePauliOp.from_list([(label(m, n), c) for c, m in case["op"]])
+    op = build_operator(case)
+    alpha = conv_alpha(case, alpha)
     ev = BitstringEvaluator(case.get("len", n), bit_function(case["op"], n))
     out = []
     for f in (lambda: get_expectation_with_operator(mk(dict(data), shots=shots), op, alpha),
               lambda: get_expectation_with_bitstring_evaluator(mk(dict(data), shots=shots), ev, alpha)):
         try:
-            r = f()
-            r = complex(r)
-            out.append(("err", "complex-result") if abs(r.imag) > 0 else float(r.real))
+            out.append(read_result(f()))
+        except Exception as e:
+            out.append(("err", type(e).__name__))
+    return out
+
+
+def impl_ctor(case):
+    """the two circuit evaluators' constructors check alpha as well: 'ok' or ('err', class) for [operator, bitstring]"""
+    from qiskit.primitives import StatevectorSampler
+
+    from queasars.circuit_evaluation.bitstring_evaluation import BitstringEvaluator
+    from queasars.circuit_evaluation.circuit_evaluation import BitstringCircuitEvaluator, OperatorSamplerCircuitEvaluator
+
+    alpha = conv_alpha(case, case["alpha"])
+    op = build_operator(dict(n=1, op=[[1.0, 1]]))
+    out = []
+    for f in (lambda: OperatorSamplerCircuitEvaluator(StatevectorSampler(), 16, op, alpha),
+              lambda: BitstringCircuitEvaluator(StatevectorSampler(), 16, BitstringEvaluator(1, lambda s: 1.0), alpha)):
+        try:
+            f()
+            out.append("ok")
         except Exception as e:
             out.append(("err", type(e).__name__))
     return out
@@ -121,7 +181,7 @@ def impl_raw(case):
     from queasars.circuit_evaluation.expectation_calculation import _get_expectation
 
     try:
-        return float(_get_expectation([(i, p, v) for i, (p, v) in enumerate(case["entries"])], case["alpha"]))
+        return read_result(_get_expectation([(i, p, v) for i, (p, v) in enumerate(case["entries"])], case["alpha"]))
     except Exception as e:
         return ("err", type(e).__name__)
 
@@ -159,13 +219,36 @@ def gen_counts(rng, n, shots, k):
     return [[format(s, f"0{n}b"), c] for s, c in zip(states, counts)]
 
 
-def gen_op(rng, n):
-    terms = []
-    for _ in range(rng.randint(1, 4)):
-        terms.append([rng.choice(COEFFS), rng.randrange(2**n)])
-    if rng.random() < 0.3:  # few distinct values -> ties
+OP_FAMILIES = ["distinct-strings", "distinct-strings", "single-z", "duplicate-strings", "cancelling-duplicates", "identity-repeated",
+               "unsimplified-sum", "complex-coefficients"]
+
+
+def gen_op(rng, n, family=None):
+    """(family, terms [[coefficient, z-mask]], parts or None).  The value of a state is the SUM over ALL terms: repeated
+    Pauli strings add up (the library's own JSSP encoder produces such unsimplified operators)."""
+    family = family or rng.choice(OP_FAMILIES)
+    masks = rng.sample(range(2**n), min(2**n, rng.randint(1, 4)))
+    terms = [[rng.choice(COEFFS), m] for m in masks]
+    parts = None
+    if family == "single-z":  # few distinct values -> ties
         terms = [[rng.choice([1.0, 2.0]), 1 << rng.randrange(n)]]
-    return terms
+    elif family == "duplicate-strings":  # the same Pauli string in several terms, different coefficients
+        for _ in range(rng.randint(1, 3)):
+            terms.append([rng.choice(COEFFS), rng.choice(masks)])
+        rng.shuffle(terms)
+    elif family == "cancelling-duplicates":  # a repeated string whose coefficients cancel to zero (last one non-zero)
+        c, m = rng.choice(terms)
+        terms += [[-c, m]] if rng.random() < 0.5 else [[c, m], [-2 * c, m]]
+        rng.shuffle(terms)
+    elif family == "identity-repeated":  # the identity string (constant offset) several times
+        terms += [[rng.choice(COEFFS), 0] for _ in range(rng.randint(2, 3))]
+        rng.shuffle(terms)
+    elif family == "unsimplified-sum":  # SparsePauliOp.sum of partial operators sharing strings, not simplified
+        parts = [[[rng.choice(COEFFS), rng.choice(masks)] for _ in range(rng.randint(1, 3))] for _ in range(rng.randint(2, 4))]
+        terms = [t for part in parts for t in part]
+    elif family == "complex-coefficients":  # complex coefficients with zero imaginary part, one string repeated
+        terms.append([rng.choice(COEFFS), rng.choice(masks)])
+    return family, terms, parts
 
 
 def entries_of(case, exact=True):
@@ -206,14 +289,33 @@ def gen_case(rng, big=False):
     else:
         shots = rng.choice([1, 2, 4, 8, 10, 100, 1000, 1000, 1024])
         case_counts = gen_counts(rng, n, shots, rng.randint(1, 2**n))
-    case = {"type": "agg", "n": n, "shots": shots, "counts": case_counts, "op": gen_op(rng, n), "dist_type": "prob" if rng.random() < 0.15 else "quasi"}
+    family, terms, parts = gen_op(rng, n)
+    case = {"type": "agg", "n": n, "shots": shots, "counts": case_counts, "op": terms, "op_family": family, "dist_type": "prob" if rng.random() < 0.15 else "quasi"}
+    if parts:
+        case["op_parts"] = parts
     case["alphas"] = gen_alphas(rng, case)
     r = rng.random()
-    if r < 0.02:
-        case["alphas"] = [rng.choice([0.0, -0.5, 1.5, 1.0000001])]
+    if r < 0.04:
+        case["alphas"] = [rng.choice(ALPHA_OUTSIDE)]
+        case["alpha_np"] = rng.random() < 0.3
     elif r < 0.03 and n > 1:
         case["len"] = n - 1
     return case
+
+
+# alpha outside (0, 1]: every public entry point documents and raises ValueError("alpha must be in the range (0, 1]!")
+ALPHA_OUTSIDE = [0, 0.0, -0.0, -1e-300, -5e-324, -0.5, -1.0, 1.0000000000000002, 1.0000001, 1.5, 2, 1e300]
+ALPHA_EDGE_INSIDE = [1, 1.0, 0.9999999999999999, 1e-3]
+
+
+def boundary_cases():
+    """every boundary value of alpha on a fixed small distribution (both aggregation functions) and on both circuit
+    evaluator constructors, as Python number and as numpy.float64"""
+    for np_ in (False, True):
+        for a in ALPHA_OUTSIDE + ALPHA_EDGE_INSIDE:
+            yield {"type": "agg", "n": 2, "shots": 4, "counts": [["01", 1], ["10", 2], ["11", 1]], "op": [[1.0, 1], [0.5, 2], [1.0, 1]],
+                   "op_family": "duplicate-strings", "dist_type": "quasi", "alphas": [a], "alpha_np": np_}
+            yield {"type": "ctor", "alpha": a, "alpha_np": np_}
 
 
 def gen_raw(rng):
@@ -289,6 +391,9 @@ def do_agg(ctx, case, glits, kept):
         for i, path in enumerate(("operator", "bitstring")):
             if Fraction(r1[i]) > Fraction(r2[i]) + b1[i] + b2[i] + slack:
                 ctx.violation("oracle", f"{path}-not-monotone", f"{path} path decreases in alpha: {r1[i]} at {float(a1)} > {r2[i]} at {float(a2)}", dict(case, alphas=[float(a1), float(a2)]))
+    ctx.tally(f"operator:{case.get('op_family', 'corpus')}")
+    if len({m for _, m in case["op"]}) < len(case["op"]):
+        ctx.tally("operator:has-repeated-pauli-string")
     ctx.tally(f"shots:{case['shots']}")
     ctx.tally(f"outcomes:{len(case['counts'])}")
     if len({v for _, v in exact}) < len(exact):
@@ -316,20 +421,36 @@ def do_raw(ctx, case, glits, kept):
     kept.append(case)
 
 
+def do_ctor(ctx, case, glits, kept):
+    a = Fraction(case["alpha"])
+    valid = 0 < a <= 1
+    res = impl_ctor(case)
+    ctx.tally("ctor-alpha:" + ("valid" if valid else "outside"))
+    for r, which in zip(res, ("OperatorSamplerCircuitEvaluator", "BitstringCircuitEvaluator")):
+        if valid and r != "ok":
+            ctx.violation("oracle", f"ctor-rejects-valid-alpha-{r[1]}", f"{which}(alpha={case['alpha']!r}) raised {r[1]}", case)
+        if not valid and r != ("err", "ValueError"):
+            ctx.violation("oracle", "ctor-accepts-alpha-out-of-range", f"{which}(alpha={case['alpha']!r}) outside (0,1] gives {r} instead of ValueError", case)
+        glits.append(f"CAlpha {g_q(case['alpha'])} {'true' if r == 'ok' else 'false'}")
+        kept.append(case)
+
+
 def do_case(ctx, case, glits, kept):
-    (do_agg if case["type"] == "agg" else do_raw)(ctx, case, glits, kept)
+    {"agg": do_agg, "raw": do_raw, "ctor": do_ctor}[case["type"]](ctx, case, glits, kept)
 
 
 def run(ctx):
     translate.check_link(ctx, "C14")  # regenerate Gallina from /repo's current source; link lemmas coq/link/C14Link.v
     ctx.rule = ("distributions from shot counts (shots in {1,2,4,8,10,100,1000,1024} and 1e5/1e6 for the tolerance branch; 1..2^n outcomes, n<=4, random dictionary order, ties) x diagonal "
-                "SparsePauliOp with small dyadic coefficients and its diagonal as bitstring function x 2-5 alphas from {1, 1/2, 1/4, 0.1, 1-1e-7, 0.99999, c/shots, prefix masses of the "
-                "sorted distribution and values just beside them, random}; both paths per alpha; distinct = distinct (distribution, operator, alphas); non-trivial = at least two outcomes")
+                "SparsePauliOp with small dyadic coefficients (families: distinct strings, single Z, duplicate strings, cancelling duplicates, repeated identity, unsimplified SparsePauliOp.sum, complex "
+                "coefficients with zero imaginary part; a state's value is the sum over all terms) and its diagonal as bitstring function x 2-5 alphas from {1, 1/2, 1/4, 0.1, 1-1e-7, 0.99999, c/shots, prefix masses of the "
+                "sorted distribution and values just beside them, random}; every boundary value of alpha (0, -0.0, tiny negatives, 1+ulp, >1; int/float/numpy) on both functions and both evaluator constructors expecting ValueError; both paths per alpha; distinct = distinct (distribution, operator, alphas); non-trivial = at least two outcomes")
     cases = []
     cdir = core.ROOT / "corpus" / "C14"
     for fpath in sorted(cdir.glob("*.json")) if cdir.exists() else []:
         c = json.loads(fpath.read_text())
         cases.append(c.get("case", c))
+    cases += list(boundary_cases())
     for _ in range(ctx.n(450, 14000)):
         cases.append(gen_case(ctx.rng))
     for _ in range(ctx.n(150, 5000)):
@@ -339,7 +460,8 @@ def run(ctx):
     glits, kept = [], []
     for c in cases:
         do_case(ctx, c, glits, kept)
-        ctx.case(c, len(c["counts"] if c["type"] == "agg" else c["entries"]) >= 2, sample=c if len(ctx.samples) < 3 else None)
+        size = len(c["counts"]) if c["type"] == "agg" else len(c["entries"]) if c["type"] == "raw" else 0
+        ctx.case(c, size >= 2, sample=c if len(ctx.samples) < 3 and c["type"] == "agg" and size >= 2 else None)
     bad = core.model_mismatches("C14", IMPORTS, "check_case", glits, chunk=200)
     for i in bad[:5]:
         ctx.violation("correspondence", "model-vs-impl", "the Coq model of expectation_calculation.py and the implementation return different values", kept[i],
